@@ -24,5 +24,9 @@ THEOREMS = {
     "C07": FACTS + [("QuartzModel.Theorems.C07", "Cron." + t) for t in [
         "parse_wellFormed", "newTrigger_wellFormed", "parseField_inRange", "parseField_no_special", "parseDom_shape",
         "parseDow_shape", "C07_rejects_field_count", "C07_rejects_both_days", "C07_rejects_bad_step", "C07_macros",
-        "C07_whitespace", "C07_missing_year"]] + [("QuartzModel.Theorems.CronCode", "Cron.C07_wellFormed_code")],
+        "C07_whitespace", "C07_missing_year", "normalize_glossary", "normalize_month", "normalize_day", "atoi_render",
+        "C07_name_synonym", "C07_name_synonym_range", "C07_roundtrip_single", "C07_roundtrip_name", "C07_roundtrip_range",
+        "C07_roundtrip_step", "C07_roundtrip_star_step", "C07_roundtrip_range_step", "C07_rejects_bad_single",
+        "C07_rejects_bad_range", "C07_rejects_bad_step_start", "C07_rejects_bad_list_member", "C07_whitespace_between",
+        "C07_whitespace_leading", "C07_whitespace_trailing", "C07_list_meaning", "C07_seven_fields", "C07_accepts"]] + [("QuartzModel.Theorems.CronCode", "Cron.C07_wellFormed_code")],
 }
